@@ -130,6 +130,15 @@ def gen_case(rng, tier):
             c["const"] = small_int(rng)
             c["lb"], c["ub"] = rand_bounds(rng, [t[2] for t in terms], c["const"])
             c["method"] = rng.choice(['log2', 'log10', 'linear'])
+            if rng.random() < 0.3:
+                c["cross_zero"] = True
+                if rng.random() < 0.6:       # make lb_c > 0 (or ub_c < 0) likely
+                    hi = sum(t[2] for t in terms if t[2] > 0) + c["const"]
+                    lo = sum(t[2] for t in terms if t[2] < 0) + c["const"]
+                    if hi >= 2 and rng.random() < 0.7:
+                        c["lb"] = rng.randint(1, hi); c["ub"] = rng.choice([I64MAX, rng.randint(c["lb"], hi + 1)])
+                    elif lo <= -2:
+                        c["ub"] = rng.randint(lo, -1); c["lb"] = rng.choice([I64MIN, rng.randint(lo - 1, c["ub"])])
         return c
     if kind == 'enc':
         return {"kind": kind, "ub": rng.choice([2, 3, 4, 5, 7, 8, 15, 16, 17, 31, 32, 33, 63, 64, 100, 127, 128, 255, 256, 257,
@@ -418,7 +427,7 @@ def run_dqm_ineq(c):
         try:
             slack = dqm.add_linear_inequality_constraint([(labels[i], a, int(b)) for i, a, b in c["terms"]], float(lam), "c0",
                                                          constant=int(c["const"]), lb=int(c["lb"]), ub=int(c["ub"]),
-                                                         slack_method=method)
+                                                         slack_method=method, cross_zero=bool(c.get("cross_zero")))
         except ValueError:
             raised = True
             slack = []
@@ -445,10 +454,10 @@ def run_dqm_ineq(c):
     terms = clist([cpair(cnat(l), cz(b)) for l, b in gt])
     m = {'log2': 'Log2', 'log10': 'Log10', 'linear': 'Linear'}[method]
     coq = (f"(mkDqmIneq {cnat(after['n'])} {coq_groups(before['groups'])} {m} {terms} {cq(lam)} "
-           f"{cz(c['const'])} {cz(c['lb'])} {cz(c['ub'])} {out} {coq_dobs(before)} {coq_dobs(after)} "
+           f"{cz(c['const'])} {cz(c['lb'])} {cz(c['ub'])} {cbool(c.get('cross_zero'))} {out} {coq_dobs(before)} {coq_dobs(after)} "
            f"{coq_en(en_before)} {coq_en(en_after)} "
            f"{coq_adj(adj_before)} {coq_adj(raw_adj(dqm))} {coq_rawq(raw_quad(dqm))})")
-    feats = {"kind": "dqm_ineq", "dqm_slack_method": method, "outcome": "raised" if raised else ("slack" if slack else "none")}
+    feats = {"kind": "dqm_ineq", "dqm_slack_method": method, "cross_zero": bool(c.get("cross_zero")), "outcome": "raised" if raised else ("slack" if slack else "none")}
     if method == 'log10':
         feats["overcovers"] = bool(over)
     return {"coq": coq, "check_fn": "check_dqm_ineq", "features": feats, "py_fail": py_fail,
@@ -523,7 +532,7 @@ def run_cqm(c):
             break
         ncons -= 1        # keep the exhaustive enumeration small
     Tc = LabelTable([v[0] for v in c["vars"]])
-    Tb = LabelTable()
+    Tb = Tc          # one label space, as in dimod: a binary / spin variable keeps its label in the BQM
     feats = {"kind": "cqm", "raised": raised, "ncons": ncons,
              "vartypes": "".join(sorted({v[1][0] for v in c["vars"]}))}
     qvars = clist([cpair(cnat(Tc.idx(l)), "CBin" if vt == 'BINARY' else "CSpin" if vt == 'SPIN' else f"(CInt {cz(ub)})")
